@@ -5,7 +5,7 @@ library did (post-state flags + outcome).  Also yields the parsed steps for dire
 import re, os
 import vlib
 
-WRAPS = ["psGetBrokenDownGMTime", "psGetEntropy", "psGetPrngLocked", "psGetTime", "csAesGcmEncryptTls13", "csChacha20Poly1305IetfEncryptTls13"]
+WRAPS = ["psGetBrokenDownGMTime", "psGetEntropy", "psGetPrngLocked", "psGetTime", "_psTrace", "_psTraceStr", "_psTraceInt", "_psTracePtr", "psTraceBytes", "csAesGcmEncryptTls13", "csChacha20Poly1305IetfEncryptTls13"]
 NONE = 255  # SSL_ALERT_NONE
 
 CONFIGS = {
